@@ -223,12 +223,152 @@ def run_histories(ctx, impl, hs, point):
     if hs:
         ctx.sample({"history": hs[0][:8]})
 
+# ------------------------------------------------------------------------------------------------------------------
+# connection level: whole QUIC connections from the independent sender through the real tool; every packet number the
+# tool hands to QuicDecryptor.decrypt (= the AEAD nonce) is compared with the number the sender sealed that very
+# ciphertext with (the sender's encodings are conformant: RFC 9000 A.3 applied to what the receiver has processed
+# yields the sender's number — asserted below). Scenario scripts aim at histories the bare-object runs cannot reach:
+# a Retry after the Initial space crossed a window boundary (packet numbers are NOT reset by a Retry, RFC 9000
+# 17.2.5.3), an authenticated packet whose frames the tool cannot parse carrying the space over a boundary, jumps of
+# exactly half a window after a 4-byte encoding.
+def _connection(kind, seed):
+    import random
+    import gen_quic
+    rng = random.Random(seed)
+    suite = [0x1301, 0x1302, 0x1303, 0x1304][seed % 4]
+    if kind == "random":
+        feats = [{"retry": True}, {"pn_half": True, "retry": False}, {"pn_big": True}, {"long": True, "reorder": False},
+                 {"retry": True, "zero_rtt": True, "early_suite_first": True}][seed % 5]
+        c, _ = gen_quic.random_connection(rng, 0, suite=suite, features=dict(feats))
+        return c
+    c = gen_quic.QConn(rng, suite=suite, offer=[suite] + [x for x in (0x1301, 0x1302, 0x1303, 0x1304) if x != suite],
+                       cport=40000 + seed % 20000, scid_c_len=rng.choice([0, 4, 8, 20]), scid_s_len=rng.choice([4, 8, 16]))
+    offs = {}
+
+    def data(d, pnlen=1, jump=0, n=None):
+        b = rng.randbytes(n or rng.randrange(1, 120))
+        off = offs.get(d, 0)
+        offs[d] = off + len(b)
+        c.app(d, [(0, off, b, False)], pnlen=pnlen, jump=jump)
+
+    if kind == "retry-after-boundary":
+        orig, st = c.q_initial, {"n": 0}
+        far = rng.choice([300, 257, 129 + 256, 70000])
+
+        def qi(from_server, frames, pnlen=1, **kw):
+            r = orig(from_server, frames, pnlen=pnlen, **kw)
+            if not from_server and st["n"] == 0:
+                st["n"] = 1
+                # the client probes again before the Retry arrives: PINGs, the last one far ahead (2- or 3-byte encoding)
+                c.flush(0)
+                orig(0, b"\x01", pnlen=1, pad_to=1162)
+                c.flush(0)
+                orig(0, b"\x01", pnlen=3 if far > 30000 else 2, pad_to=1162, jump=far - c.pn.get("ci", 0))
+            return r
+        c.q_initial = qi
+        c.handshake(retry=True)
+        c.q_initial = orig
+        for i in range(4):
+            data(i % 2)
+    elif kind == "unparsable-over-boundary":
+        c.handshake()
+        for d in (0, 1):
+            data(d)
+        for d in (0, 1):
+            far = rng.choice([300, 257, 129 + 256])
+            # an authenticated packet ending in a frame type the tool has no class for (IMMEDIATE_ACK, 0x1f): it still is
+            # the largest successfully processed packet of its space
+            c.q_1rtt(d, b"\x01\x1f", pnlen=2, jump=far - c.pn.get("sa" if d else "ca", 0))
+            c.flush(d)
+        for i in range(6):
+            data(i % 2, pnlen=1)
+    elif kind == "half-window-after-wide":
+        c.handshake()
+        for d in (0, 1):
+            data(d)
+        for d in (0, 1):
+            data(d, pnlen=4, jump=rng.randrange(1 << 16, 1 << 24))
+            data(d, pnlen=2, jump=0x8000)                     # exactly expected + half a window: stays (RFC A.3 uses >)
+            data(d, pnlen=1, jump=0x80)
+            data(d, pnlen=3, jump=0x800000)
+        for i in range(4):
+            data(i % 2)
+    else:
+        raise ValueError(kind)
+    return c
+
+
+def connection_job(job):
+    import logging
+    logging.disable(logging.CRITICAL)
+    import gen_quic
+    import tool
+    import wire
+    kind, seed = job
+    sealed = {}
+    orig_seal = gen_quic.Keys.seal
+
+    def seal(self, pn, hdr, pt):
+        ct = orig_seal(self, pn, hdr, pt)
+        sealed[bytes(ct)] = pn
+        return ct
+    gen_quic.Keys.seal = seal
+    try:
+        c = _connection(kind, seed)
+    finally:
+        gen_quic.Keys.seal = orig_seal
+    import tlexport.quic.quic_decryptor as qd
+    calls = []
+    orig_dec = qd.QuicDecryptor.decrypt
+
+    def dec(self, ciphertext, packet_number, associated_data, isserver):
+        calls.append((bytes(ciphertext), int.from_bytes(packet_number, "big"), bool(isserver)))
+        return orig_dec(self, ciphertext, packet_number, associated_data, isserver)
+    qd.QuicDecryptor.decrypt = dec
+    cap = wire.pcapng(c.items)
+    kl = "\n".join(c.keylog_lines()) + "\n"
+    try:
+        r = tool.run(cap, kl)
+    finally:
+        qd.QuicDecryptor.decrypt = orig_dec
+    prob = None
+    seen = 0
+    for ct, pn, srv in calls:
+        if ct in sealed:
+            seen += 1
+            if sealed[ct] != pn and prob is None:
+                prob = ("nonce-ne-sender", f"a {'server' if srv else 'client'} packet sealed with packet number {sealed[ct]} was opened with "
+                        f"{pn} as nonce (decrypt call #{seen} of the run)", sealed[ct], pn)
+    blob = None
+    if prob:
+        blob = {"capture_hex": cap.hex(), "keylog": kl, "kind": kind, "seed": seed}
+    return kind, seed, prob, blob, seen, len(sealed)
+
+
+def run_connections(ctx, scale=1):
+    import tool
+    p = ctx.point("pn.connections (AEAD nonce of every packet of whole connections vs the sender's packet number)")
+    kinds = ["retry-after-boundary", "unparsable-over-boundary", "half-window-after-wide", "random"]
+    n = ctx.n(6, 40) * scale
+    base = ctx.rng.randrange(1 << 20)
+    jobs = [(k, base + i) for k in kinds for i in range(n)]
+    for kind, seed, prob, blob, seen, total in tool.pmap(connection_job, jobs):
+        p["cases"] += 1
+        ctx.count((kind, seed), nontrivial=seen >= 8)
+        ctx.hist("connection_kind", kind)
+        ctx.hist("packets_opened_of_sealed", f"{min(10, 10 * seen // max(1, total))}/10")
+        if prob:
+            sig, what, want, got = prob
+            ctx.fail("C16:{connection,%s}:%s" % (kind, sig), what, blob, expected=want, actual=got)
+    ctx.sample({"connection_kinds": kinds, "per_kind": n})
+
 
 def explore(ctx, scale=1):
     impl = Impl()
     run_single(ctx, impl, boundary_cases(ctx), "pn.boundaries")
     run_single(ctx, impl, random_cases(ctx, ctx.n(3000, 200000) * scale), "pn.random")
     run_histories(ctx, impl, histories(ctx, ctx.n(150, 5000) * scale), "pn.histories")
+    run_connections(ctx, scale)
 
 
 def run(ctx):
@@ -251,7 +391,11 @@ def run(ctx):
 def replay(ctx, obj):
     impl = Impl()
     c = obj["case"]
-    if "history" in c:
+    if "capture_hex" in c:
+        kind, seed, prob, blob, seen, total = connection_job((c["kind"], c["seed"]))
+        if prob:
+            ctx.fail("C16:{connection,%s}:%s" % (kind, prob[0]), prob[1], blob, expected=prob[2], actual=prob[3])
+    elif "history" in c:
         run_histories(ctx, impl, [[tuple(x) for x in c["history"]]], "replay")
     else:
         ctx.rng.randrange = lambda *a: c.get("srv", 0)
